@@ -21,8 +21,22 @@
     C08_wraps, C08_full_false, C08_wraps_names/_prefixes/_namespaces
                         THE DEFECT: the (2^bits+1)-th distinct value gets the id of the first; the
                         unbounded claim (`C08_fullStatement`) is false at every width
+
+  Registrations made IMPLICITLY (tie to the parser model `Model/Parse.lean`, which interns on bare
+  tables without an id width; `Model/IdMapParse.lean` has the calls `parse` / `html5()` make as data):
+    C08_parse_bridge         `internIn` of the parser model = `get_id_mut` of the interner
+    C08_parse_registrations  accepted or rejected, a parse leaves the interner after exactly the calls
+                             `buildRegs`; invariant, persistence, duplicate-freeness, what each id means
+    C08_parse_registrations_inv  the part that needs the table invariant only
+    C08_parse_tree           every id in the tree was returned by one of those calls, is in range, and
+                             equal ids <=> equal strings in the tables left (and in all later ones)
+    C08_parse_places         which call belongs to which start tag / attribute / declaration / PI
+    C08_parse_capacity_needed  the capacity hypothesis cannot be dropped (full table + `<fresh/>`)
+    C08_parse_history(_tree) any interleaving of direct registrations, parses, `html5()`, clone
+    C08_html5                `html5()` = its call sequence; the ids it stores = the four pairs per entry
 -/
 import XotModel.Lemmas.IdMap
+import XotModel.Lemmas.IdMapParseWitness
 
 namespace XotModel.Props
 open XotModel XotModel.Gen XotModel.IdMap
@@ -282,5 +296,297 @@ example : (registerAll 2 (empty : IdMap Nat) [10, 11, 12, 13, 14]).2 = [0, 1, 2,
 
 /-- At width 16 the value that wraps in `C08_wraps_names` is `n65534`. -/
 example : bulkValue ['n'] (2 ^ 16 - 2) = ['n','6','5','5','3','4'] := by decide
+
+/-! ### Registrations made implicitly by `parse` and `html5()` -/
+
+open XotModel.IdParse in
+/-- THE BRIDGE.  The parser model interns with `internIn` on the bare `by_id` lists (`Env`, no id
+    width); the interner of this file does `get_id_mut` (vector + hash map, `index as uN`).  On an
+    interner satisfying the table invariant, each of the three registrations leaves the same
+    tables in both models — at every size — and returns the same id as long as the table is below
+    `2^bits` entries before the call (sharper, in `Lemmas/IdMapParse.lean`: at most `2^bits`
+    after it). -/
+theorem C08_parse_bridge (x : Interner) (hx : Interner.Inv x) :
+    (∀ p : Str, Env.ofInterner (x.addPrefix p).1 = ((Env.ofInterner x).internPrefix p).1 ∧
+      (x.prefixLookup.byId.length < 2 ^ prefixIdBits →
+        (x.addPrefix p).2 = ((Env.ofInterner x).internPrefix p).2)) ∧
+    (∀ u : Str, Env.ofInterner (x.addNamespace u).1 = ((Env.ofInterner x).internNamespace u).1 ∧
+      (x.namespaceLookup.byId.length < 2 ^ namespaceIdBits →
+        (x.addNamespace u).2 = ((Env.ofInterner x).internNamespace u).2)) ∧
+    (∀ (l : Str) (n : Nat), Env.ofInterner (x.addNameNs l n).1 = ((Env.ofInterner x).internName l n).1 ∧
+      (x.nameLookup.byId.length < 2 ^ nameIdBits →
+        (x.addNameNs l n).2 = ((Env.ofInterner x).internName l n).2)) :=
+  ⟨fun p => ⟨Interner.reg_env hx (.pfx p), Interner.addPrefix_id hx p⟩,
+   fun u => ⟨Interner.reg_env hx (.ns u), Interner.addNamespace_id hx u⟩,
+   fun l n => ⟨Interner.reg_env hx (.name l n), Interner.addNameNs_id hx l n⟩⟩
+
+/-- A PARSE IS A HISTORY.  `x` is any well-formed interner (`Interner.WF`: the table invariant,
+    every registered name's namespace id an id of this `Xot`, the built-ins present — true of
+    `Xot::new()` and kept by every step, `C08_parse_history`).  For every token list, mode and
+    tokenizer outcome, if `parse` / `parse_fragment` (`build`) accepts — or rejects, the Rust having
+    registered before it fails — leaving the tables `env'`, then with
+    `regs := buildRegs (Env.ofInterner x) ts`, the calls the builder makes in the order it makes them
+    (prefix and name per start / end tag and attribute, prefix and decoded URI per declaration, the
+    target per PI):
+    * `env'` is the `by_id` part of `x` after exactly the `get_id_mut` calls `regs`, made with the
+      id width (`Interner.regAll`), and is `regs` replayed on the bare tables;
+    * the invariant is kept, no `get_value` / `get_id` answer of `x` is taken back (`Mono`), every
+      table of `x` is a prefix of the table in `env'` (`PrefixOf`: every id valid before the parse
+      keeps its value), the tables stay duplicate-free with namespace ids in range (`DupFree`), and
+      every name was registered with a namespace id the namespace table held at that moment;
+    * each id returned stands in `env'` for the value registered; two calls on the same table
+      returned the same id exactly when they registered the same string (names: local name and
+      namespace id);
+    * CAPACITY: if no table of `env'` has more than `2^bits` entries (`Env.Cap`; `2^32` at the
+      extracted widths), the interner returned exactly these ids.  `C08_parse_capacity_needed`:
+      not otherwise. -/
+theorem C08_parse_registrations (x : Interner) (hx : Interner.WF x) (m : Mode) (len : Nat)
+    (ts : List Token) (lexErr : Option Nat) (env' : Env)
+    (hb : (∃ p, build m len (Env.ofInterner x) ts lexErr = .ok p ∧ p.env = env') ∨
+          (∃ e, build m len (Env.ofInterner x) ts lexErr = .err e env')) :
+    Env.ofInterner (x.regAll (buildRegs (Env.ofInterner x) ts)).1 = env' ∧
+    env' = ((Env.ofInterner x).regAll (buildRegs (Env.ofInterner x) ts)).1 ∧
+    Interner.WF (x.regAll (buildRegs (Env.ofInterner x) ts)).1 ∧
+    x.Mono (x.regAll (buildRegs (Env.ofInterner x) ts)).1 ∧
+    (Env.ofInterner x).PrefixOf env' ∧ env'.DupFree ∧
+    (Env.ofInterner x).RegsInRange (buildRegs (Env.ofInterner x) ts) ∧
+    (∀ (i : Nat) (r : Reg) (id : Nat), (buildRegs (Env.ofInterner x) ts)[i]? = some r →
+      ((Env.ofInterner x).regAll (buildRegs (Env.ofInterner x) ts)).2[i]? = some id → env'.Holds r id) ∧
+    (∀ (i j : Nat) (r r' : Reg), (buildRegs (Env.ofInterner x) ts)[i]? = some r →
+      (buildRegs (Env.ofInterner x) ts)[j]? = some r' → r.sameTable r' = true →
+      (((Env.ofInterner x).regAll (buildRegs (Env.ofInterner x) ts)).2[i]? =
+        ((Env.ofInterner x).regAll (buildRegs (Env.ofInterner x) ts)).2[j]? ↔ r = r')) ∧
+    (env'.Cap → (x.regAll (buildRegs (Env.ofInterner x) ts)).2 =
+      ((Env.ofInterner x).regAll (buildRegs (Env.ofInterner x) ts)).2) := by
+  obtain ⟨h1, h2, h3, h4, h5, h6, h7⟩ := Interner.parse_tables hx m len ts lexErr hb
+  refine ⟨h1, h2, h3, h4, h5, h6, h7, ?_, ?_, ?_⟩
+  · intro i r id hr hid
+    rw [h2]; exact Env.regAll_holds _ _ i r id hr hid
+  · intro i j r r' hi hj hs
+    exact Env.regAll_ids_iff _ _ (h2 ▸ h6) hi hj hs
+  · intro hc
+    exact Interner.regAll_ids _ hx.inv (h2 ▸ hc)
+
+/-- The same with the table invariant alone (an earlier `add_name_ns` may have been given a
+    namespace id this `Xot` never issued, which the API accepts): exactly those calls, invariant,
+    persistence, growth at the end only, duplicate-free tables.  Only "every name's namespace id is
+    in range" — hence the reading of names as expanded-name STRINGS — needs `Interner.WF`. -/
+theorem C08_parse_registrations_inv (x : Interner) (hx : Interner.Inv x) (m : Mode) (len : Nat)
+    (ts : List Token) (lexErr : Option Nat) (env' : Env)
+    (hb : (∃ p, build m len (Env.ofInterner x) ts lexErr = .ok p ∧ p.env = env') ∨
+          (∃ e, build m len (Env.ofInterner x) ts lexErr = .err e env')) :
+    Env.ofInterner (x.regAll (buildRegs (Env.ofInterner x) ts)).1 = env' ∧
+    Interner.Inv (x.regAll (buildRegs (Env.ofInterner x) ts)).1 ∧
+    x.Mono (x.regAll (buildRegs (Env.ofInterner x) ts)).1 ∧ (Env.ofInterner x).PrefixOf env' ∧
+    env'.names.Nodup ∧ env'.prefixes.Nodup ∧ env'.namespaces.Nodup := by
+  obtain ⟨b1, b2⟩ := Interner.parse_build hx m len ts lexErr
+  have he : Env.ofInterner (x.regAll (buildRegs (Env.ofInterner x) ts)).1 = env' := by
+    rcases hb with ⟨p, hp, rfl⟩ | ⟨e, he⟩
+    · exact b1 p hp
+    · exact b2 e env' he
+  have hi := Interner.regAll_inv (buildRegs (Env.ofInterner x) ts) hx
+  have hm := Interner.regAll_mono (buildRegs (Env.ofInterner x) ts) x
+  refine ⟨he, hi, hm, he ▸ hm.prefixOf, ?_, ?_, ?_⟩
+  · rw [← he]; exact hi.nm.nodup
+  · rw [← he]; exact hi.pf.nodup
+  · rw [← he]; exact hi.ns.nodup
+
+open XotModel.IdParse in
+/-- THE TREE of an accepted parse.  Every id it stores (element / attribute / PI names, the prefix
+    and namespace of namespace nodes) was returned by one of the parse's own calls (`IssuedBy`:
+    a name id by a `name` call; a namespace node's pair by a `pfx` call and the `ns` call after it —
+    with `C08_parse_registrations` it stands for exactly what that call registered) and is an id
+    of the tables the parse leaves.  In those tables, and in every later state `e'` of them, ids
+    are equal exactly when the strings are: names by expanded name (namespace URI, local name),
+    prefixes and namespaces by their string; and the expanded name of an id never changes. -/
+theorem C08_parse_tree (x : Interner) (hx : Interner.WF x) (m : Mode) (len : Nat) (ts : List Token)
+    (lexErr : Option Nat) (p : Parsed) (hb : build m len (Env.ofInterner x) ts lexErr = .ok p) :
+    AllV (IssuedBy (Env.ofInterner x) (buildRegs (Env.ofInterner x) ts)) p.tree ∧
+    p.tree.idsIn p.env = true ∧
+    ∀ e' : Env, p.env.PrefixOf e' → e'.DupFree →
+      p.tree.idsIn e' = true ∧
+      (∀ n, n < p.env.names.length → e'.expanded n = p.env.expanded n) ∧
+      (∀ n k, n < e'.names.length → k < e'.names.length → (n = k ↔ e'.expanded n = e'.expanded k)) ∧
+      (∀ a b, a < e'.prefixes.length → b < e'.prefixes.length → (a = b ↔ e'.prefixStr a = e'.prefixStr b)) ∧
+      (∀ a b, a < e'.namespaces.length → b < e'.namespaces.length →
+        (a = b ↔ e'.namespaceStr a = e'.namespaceStr b)) := by
+  obtain ⟨t1, t2⟩ := Interner.parse_tree (x := x) hb
+  have hd : p.env.DupFree := (Interner.parse_tables hx m len ts lexErr (Or.inl ⟨p, hb, rfl⟩)).2.2.2.2.2.1
+  refine ⟨t1, t2, fun e' hp hd' => ⟨Tree.idsIn_mono hp _ t2, fun n hn => hp.expanded_eq hd hn,
+    fun n k hn hk => ⟨fun h => h ▸ rfl, Env.expanded_inj hd' hn hk⟩,
+    fun a b ha hb' => ⟨fun h => h ▸ rfl, Env.prefixStr_inj hd' ha hb'⟩,
+    fun a b ha hb' => ⟨fun h => h ▸ rfl, Env.namespaceStr_inj hd' ha hb'⟩⟩⟩
+
+/-- WHICH CALL BELONGS TO WHICH PLACE of the document, per step of the builder (`b` any builder
+    state): (1) `ElementStart` keeps prefix and local name as written; (2) `open_element` on them
+    makes the calls `pfx <prefix as written>`, `name <local name as written> <ns>` first, `ns` being
+    what the prefix resolves to with the tag's own declarations on top of the stack, and the
+    element node stores the id the second call returned; (3) each attribute likewise (no
+    namespace when unprefixed); (4) a declaration makes `pfx <prefix>`, `ns <decoded value>` and
+    queues the two ids returned for the namespace node; (5) a PI makes `name <target> <no namespace>`
+    and stores the id returned.  What `ns` is as a STRING is `C02_scope_element` / `_attribute`. -/
+theorem C08_parse_places (b : Builder) :
+    (∀ pfx loc : StrSpan, ∃ eb, (b.element pfx loc).eb = some eb ∧ eb.pfx = pfx.text ∧
+      eb.name = loc.text ∧ eb.namespaces = []) ∧
+    (∀ b' eb, b.eb = some eb → b.openElement = .ok b' →
+      ∃ ns rest id, lookupPrefix (eb.namespaces :: b.nsStack) (b.env.internPrefix eb.pfx).2 = some ns ∧
+        b.openRegs = .pfx eb.pfx :: .name eb.name ns :: rest ∧
+        (b.env.regAll b.openRegs).2[1]? = some id ∧ b'.cur.value = .element id) ∧
+    (∀ stack node st st1 ab, addAttributes stack node st [ab] = .ok st1 →
+      ∃ ns id v, attributeNameRegs st.env stack ab.pfx ab.name = [.pfx ab.pfx, .name ab.name ns] ∧
+        (ns = Env.noNamespace ∨ lookupPrefix stack (st.env.internPrefix ab.pfx).2 = some ns) ∧
+        (st.env.regAll (attributeNameRegs st.env stack ab.pfx ab.name)).2[1]? = some id ∧
+        st1.rkids = .node (.attribute id v) [] :: st.rkids) ∧
+    (∀ b' p u sp, b.prefix p u sp = .ok b' →
+      ∃ us eb eb', parseContentGo true u.start 0 u.text = .ok us ∧ prefixRegs p u = [.pfx p, .ns us] ∧
+        b.eb = some eb ∧ b'.eb = some eb' ∧
+        eb'.namespaces = eb.namespaces ++
+          [((b.env.regAll (prefixRegs p u)).2.getD 0 0, (b.env.regAll (prefixRegs p u)).2.getD 1 0)]) ∧
+    (∀ target content, (b.processingInstruction target content).cur.rkids =
+      .node (.pi ((b.env.regAll [.name target.text Env.noNamespace]).2.getD 0 0)
+        (content.map (fun c => c.text))) [] :: b.cur.rkids) :=
+  ⟨element_place b, fun _ _ heb hr => openElement_place heb hr, fun _ _ _ _ _ h => attribute_place h,
+   fun _ _ _ _ hr => prefix_place hr, processingInstruction_place b⟩
+
+/-- THE CAPACITY HYPOTHESIS IS NEEDED.  Take any interner satisfying the invariant whose name table
+    is full — exactly `2^nameIdBits` entries, which `Env.Cap` still allows — with the empty prefix at
+    id 0 (as after `Xot::new()`), and any local name not yet registered in "no namespace".  Parsing
+    `<loc/>` makes the calls `pfx ""`, `name loc 0`; the interner answers the second with id 0 — the
+    id of an unrelated, earlier name (`xml:space` after `Xot::new()`; `C08_wraps_names` builds such a
+    state) — while the width-free tables of the parser model say `2^nameIdBits`.  Equal ids,
+    different strings: past capacity neither `C08_parse_registrations`' last clause nor C08 holds. -/
+theorem C08_parse_capacity_needed (x : Interner) (hx : Interner.Inv x)
+    (hfull : x.nameLookup.byId.length = 2 ^ nameIdBits)
+    (h0 : (Env.ofInterner x).prefixes.idxOf ([] : Str) = 0) (loc : Str)
+    (hnew : (loc, Env.noNamespace) ∉ x.nameLookup.byId) :
+    buildRegs (Env.ofInterner x) (emptyElementTokens loc) = [.pfx [], .name loc Env.noNamespace] ∧
+    (Env.ofInterner x).names.length ≤ 2 ^ nameIdBits ∧
+    (x.reg (.name loc Env.noNamespace)).2 = 0 ∧
+    ((Env.ofInterner x).reg (.name loc Env.noNamespace)).2 = 2 ^ nameIdBits ∧
+    (∃ k, x.nameLookup.getValue 0 = some k ∧ k ≠ (loc, Env.noNamespace)) := by
+  obtain ⟨a, b, c, d⟩ := Interner.full_table_wraps x hx hfull loc Env.noNamespace hnew
+  exact ⟨buildRegs_emptyElement _ h0 loc, c, a, b, d⟩
+
+/-- HISTORIES.  A history is any list of steps `add_name`, `add_name_ns`, `add_namespace`,
+    `add_prefix`, `parse` (of any token list, accepted or not), `html5()`, `clone` (`HStep`), run
+    from any interner satisfying the invariant — `Xot::new()` does.  Along every history: the
+    invariant holds at the end (so `C08_bounded` / `C08_table` apply at every point); no
+    `get_value` / `get_id` answer is ever taken back and the built-in id fields never change
+    (`Mono`): an id handed out at any point — by a registration or inside a parsed tree — denotes
+    the same string at every later point; the `by_id` vectors only grow at the end.  If moreover
+    every `add_name_ns` names a namespace id the `Xot` has issued (`RunOk`; parses and `html5()`
+    always do), well-formedness — hence duplicate-free tables with namespace ids in range, what
+    `C08_parse_registrations` and `C13_expanded_names` ask for — is kept too. -/
+theorem C08_parse_history (x : Interner) (hx : Interner.Inv x) (ss : List HStep) :
+    Interner.Inv (x.run ss) ∧ x.Mono (x.run ss) ∧
+    (Env.ofInterner x).PrefixOf (Env.ofInterner (x.run ss)) ∧
+    (∀ ss', x.run (ss ++ ss') = (x.run ss).run ss' ∧ (x.run ss).Mono (x.run (ss ++ ss'))) ∧
+    (Interner.WF x → x.RunOk ss → Interner.WF (x.run ss) ∧ (Env.ofInterner (x.run ss)).DupFree) ∧
+    Interner.WF Interner.new :=
+  ⟨Interner.run_inv ss hx, Interner.run_mono ss x, (Interner.run_mono ss x).prefixOf,
+   fun ss' => ⟨Interner.run_append ss ss' x, by rw [Interner.run_append]; exact Interner.run_mono ss' _⟩,
+   fun hw hr => ⟨Interner.run_wf ss hw hr, (Interner.run_wf ss hw hr).dupFree⟩, Interner.wf_new⟩
+
+/-- … and the trees.  A document parsed at some point of a history (`x` = the interner then), and
+    any continuation `ss` of the history: every id of the tree is an id of the tables at the end,
+    with the expanded name it had when parsed; and it equals any name id `k` of the tables at the
+    end — e.g. one from a tree parsed later, or returned by a later `add_name_ns` — exactly when
+    the two expanded names (namespace URI, local name) are equal.  So names compare equal across
+    all trees of one `Xot` exactly when their expanded names are. -/
+theorem C08_parse_history_tree (x : Interner) (hx : Interner.WF x) (m : Mode) (len : Nat) (ts : List Token)
+    (lexErr : Option Nat) (p : Parsed) (hb : build m len (Env.ofInterner x) ts lexErr = .ok p)
+    (ss : List HStep) (hok : (x.step (.parse ts)).RunOk ss) :
+    x.run (.parse ts :: ss) = (x.step (.parse ts)).run ss ∧
+    p.tree.idsIn (Env.ofInterner (x.run (.parse ts :: ss))) = true ∧
+    (∀ n, n < p.env.names.length →
+      (Env.ofInterner (x.run (.parse ts :: ss))).expanded n = p.env.expanded n) ∧
+    (∀ n k, n < p.env.names.length → k < (Env.ofInterner (x.run (.parse ts :: ss))).names.length →
+      (n = k ↔ p.env.expanded n = (Env.ofInterner (x.run (.parse ts :: ss))).expanded k)) := by
+  obtain ⟨h1, _, h3, _, _, _, _⟩ := Interner.parse_tables hx m len ts lexErr (Or.inl ⟨p, hb, rfl⟩)
+  have hwf : Interner.WF ((x.step (.parse ts)).run ss) := Interner.run_wf ss h3 hok
+  have hp : p.env.PrefixOf (Env.ofInterner ((x.step (.parse ts)).run ss)) := by
+    rw [← h1]; exact (Interner.run_mono ss _).prefixOf
+  obtain ⟨_, t2, t3⟩ := C08_parse_tree x hx m len ts lexErr p hb
+  obtain ⟨a1, a2, a3, _, _⟩ := t3 _ hp hwf.dupFree
+  refine ⟨rfl, a1, a2, fun n k hn hk => ?_⟩
+  have hn' : n < (Env.ofInterner ((x.step (.parse ts)).run ss)).names.length :=
+    Nat.lt_of_lt_of_le hn hp.names.length_le
+  rw [← a2 n hn]
+  exact a3 n k hn' hk
+
+/-- `html5()` (`Html5Elements::new`, src/output/html5elements.rs) on a well-formed interner:
+    it IS the call sequence `html5Regs` — the three namespaces, then per table (in the order
+    `html5_names`, `void_names`, `phrasing_content_names`, `formatted_names`, `no_escape_names` of
+    `Generated.lean`) and per entry `n` the names `(n, no ns)`, `(N, no ns)`, `(n, xhtml)`,
+    `(N, xhtml)` — and stores the ids those calls return; it keeps well-formedness and takes no
+    answer back.  Within capacity, in the tables it leaves or any later duplicate-free ones (`e'`):
+    the three namespace ids are found under their URIs, and the `ids` of table `j` are exactly the
+    ids standing for one of the four pairs of an entry — which, for an id in range, is the test
+    `HtmlNames.idsContain` of the serializer model (C19). -/
+theorem C08_html5 (x : Interner) (hx : Interner.WF x) :
+    x.html5.1 = (x.regAll (html5Regs x.noNamespaceId x.html5.2.xhtml)).1 ∧
+    x.html5.2.xhtml :: x.html5.2.mathml :: x.html5.2.svg :: x.html5.2.ids.flatten =
+      (x.regAll (html5Regs x.noNamespaceId x.html5.2.xhtml)).2 ∧
+    Interner.WF x.html5.1 ∧ x.Mono x.html5.1 ∧
+    x.html5.1.namespace xhtmlNs = some x.html5.2.xhtml ∧
+    x.html5.1.namespace mathmlNs = some x.html5.2.mathml ∧
+    x.html5.1.namespace svgNs = some x.html5.2.svg ∧
+    ∀ e' : Env, (Env.ofInterner x.html5.1).PrefixOf e' → e'.Cap → e'.DupFree →
+      ∀ (j : Nat) (L : List Str) (ids : List Nat), html5Tables[j]? = some L → x.html5.2.ids[j]? = some ids → ∀ id : Nat,
+        (id ∈ ids ↔ ∃ r ∈ htmlNamesRegs Env.noNamespace x.html5.2.xhtml L, e'.Holds r id) ∧
+        (id < e'.names.length → (id ∈ ids ↔ (HtmlNames.mk x.html5.2.xhtml L).idsContain e' id = true)) := by
+  obtain ⟨r1, r2⟩ := Interner.html5_regs x
+  have hm : x.Mono x.html5.1 := by rw [r1]; exact Interner.regAll_mono _ x
+  obtain ⟨n1, n2, n3⟩ := Interner.html5_namespaces hx.inv
+  refine ⟨r1, r2, hx.html5, hm, n1, n2, n3, ?_⟩
+  intro e' hp hc hd j L ids hL hids id
+  have h := Interner.html5_ids hx.inv hp hc hd hL hids id
+  rw [hx.noNs] at h
+  exact ⟨h, fun hlt => h.trans (htmlNamesRegs_idsContain e' _ L id hlt)⟩
+
+/-! ### Non-vacuity of the parse / history theorems -/
+
+open XotModel.Witness in
+/-- `Xot::new()` is well-formed and, seen by the parser model, is `Env.fresh`; the document
+    `<p:a xmlns:p='u' b='x&#10;y'><!--c-->t&lt;<![CDATA[c]]></p:a>` is accepted from it
+    (hypotheses of `C08_parse_registrations` / `C08_parse_tree`), its calls are these eight, the ids
+    returned are `2,2 | 2,2 | 0,3 | 2,2` (prefix `p` and URI `u` new at 2; `{u}a` new at 2; the
+    empty prefix is 0, `b` in no namespace new at 3; the end tag finds `p` and `{u}a` again), and
+    the tables left are within capacity. -/
+example : Interner.WF Interner.new ∧ Env.ofInterner Interner.new = Env.fresh ∧
+    (build .document goodDocLen (Env.ofInterner Interner.new) goodDoc none).flat =
+      some [(0, .document), (1, .element 2), (2, .namespace 2 2), (2, .attribute 3 ['x', '\n', 'y']),
+        (2, .comment ['c']), (2, .text ['t', '<', 'c'])] ∧
+    buildRegs (Env.ofInterner Interner.new) goodDoc =
+      [.pfx ['p'], .ns ['u'], .pfx ['p'], .name ['a'] 2, .pfx [], .name ['b'] 0, .pfx ['p'], .name ['a'] 2] ∧
+    ((Env.ofInterner Interner.new).regAll (buildRegs (Env.ofInterner Interner.new) goodDoc)).2
+      = [2, 2, 2, 2, 0, 3, 2, 2] ∧
+    (Interner.new.regAll (buildRegs (Env.ofInterner Interner.new) goodDoc)).2 = [2, 2, 2, 2, 0, 3, 2, 2] ∧
+    ((Env.ofInterner Interner.new).regAll (buildRegs (Env.ofInterner Interner.new) goodDoc)).1.Cap := by
+  rw [ofInterner_new, goodDoc_regs]
+  refine ⟨Interner.wf_new, rfl, by rw [build_eq_buildE]; decide +kernel, rfl, by decide, by decide,
+    ⟨by decide, by decide, by decide⟩⟩
+
+/-- A history with all kinds of steps is admissible (`RunOk`), so `C08_parse_history` gives
+    well-formedness at its end. -/
+example : Interner.new.RunOk [.addNamespace ['u'], .addNameNs ['a'] 2, .parse (emptyElementTokens ['a']),
+    .html5, .clone, .addPrefix ['p'], .addName ['a']] := by
+  refine ⟨trivial, ?_, trivial, trivial, trivial, trivial, trivial, trivial⟩
+  show 2 < (Interner.new.addNamespace ['u']).1.namespaceLookup.byId.length
+  decide
+
+/-- The same local name in two namespaces, element vs attribute use, a PI target, `xmlns=""`:
+    the same string registered on different tables, or with different namespace ids, gets
+    independent ids; repeated registrations get the same id. -/
+example : ((Env.ofInterner Interner.new).regAll
+    [.pfx [], .ns [], .pfx ['p'], .ns ['u'], .pfx [], .name ['a'] 0, .pfx ['p'], .name ['a'] 2,
+     .pfx [], .name ['a'] 0, .name ['a'] 0, .pfx ['a'], .ns ['a']]).2 = [0, 0, 2, 2, 0, 2, 2, 3, 0, 2, 2, 3, 3] := by
+  rw [ofInterner_new]; decide
+
+/-- `html5()` on a fresh `Xot`: XHTML, MathML, SVG get the namespace ids 2, 3, 4; the first
+    table starts with `a`, `A` in no namespace and in XHTML at the name ids 2, 3, 4, 5. -/
+example : (Interner.new.html5.2.xhtml, Interner.new.html5.2.mathml, Interner.new.html5.2.svg) = (2, 3, 4) ∧
+    (Interner.new.regAll (htmlNamesRegs 0 2 [['a']])).2 = [2, 3, 4, 5] := by
+  refine ⟨by decide, by decide⟩
 
 end XotModel.Props
